@@ -1,7 +1,8 @@
 /-
 M-enc — model of `convert_to_utf8` (encodings.py:75-334): BOM / '<?xm' signature sniffing, the
 RFC 3023 decision table, ordered trial decoding, error selection and the XML-declaration rewrite.
-Codecs are a parameter (`decodes : String → Bool`: does `data.decode(name)` succeed);
+Codecs are a parameter (`decodes : String → Bool`: does `data.decode(name)` succeed AND give text that
+UTF-8 can encode — a few codecs decode to lone surrogates, which the code treats as a failed trial since fix: ffd5db4);
 chardet is modelled as "not installed" (true in this sandbox; recorded in the trusted base).
 -/
 namespace FeedVerif.Enc
